@@ -116,6 +116,22 @@ pub struct CallSiteRec {
     pub is_call: bool,
 }
 
+/// A safe method (inherent `pub`, or of a trait impl) of a public ADT that takes a value whose type
+/// mentions a type parameter: the raw material of the builder rule (`Brand.Table.builderRows`).
+pub struct MethodRec {
+    pub adt: String,
+    pub file: String,
+    pub method: String,
+    pub trait_: String,
+    /// the type arguments of the impl's self type, in the order of the ADT's type parameters
+    pub self_args: Vec<Ty>,
+    /// types of the non-receiver parameters, plus what a callback / iterator parameter supplies
+    /// (`impl FnMut(usize) -> E` supplies `E`, `impl IntoIterator<Item = E>` supplies `E`)
+    pub params: Vec<Ty>,
+    /// impl / method type parameters bounded by `Collect` or `'static` at this method
+    pub bounded: Vec<String>,
+}
+
 pub struct AutoImplRec {
     pub trait_: String,
     pub negative: bool,
@@ -134,6 +150,7 @@ pub struct Table {
     /// all call sites seen (pass 2); filtered to the relevant callees before emission
     pub all_sites: Vec<CallSiteRec>,
     pub call_sites: Vec<CallSiteRec>,
+    pub methods: Vec<MethodRec>,
     pub auto_impls: Vec<AutoImplRec>,
     pub unclassified: Vec<String>,
     /// informational: item-level macro invocations / definitions that were not expanded
@@ -296,6 +313,7 @@ fn std_ctor(full: &str) -> Option<&'static str> {
         "Result" if segs.len() == 1 || segs.iter().any(|s| *s == "result") => "result",
         "NonNull" => "nonNull",
         "ManuallyDrop" => "manuallyDrop",
+        "MaybeUninit" => "maybeUninit",
         _ => return None,
     })
 }
@@ -1250,6 +1268,99 @@ fn do_fn(
     }
 }
 
+/// Types a bound lets the caller supply: the output of an `Fn*(..) -> R` bound, the types bound to
+/// associated types (`IntoIterator<Item = E>`).
+fn supplied_by_bounds<'x>(bounds: impl Iterator<Item = &'x syn::TypeParamBound>, k: &Krate, sc: &Scope, out: &mut Vec<Ty>) {
+    for b in bounds {
+        if let syn::TypeParamBound::Trait(tb) = b {
+            if let Some(seg) = tb.path.segments.last() {
+                match &seg.arguments {
+                    syn::PathArguments::Parenthesized(pa) => {
+                        if let syn::ReturnType::Type(_, t) = &pa.output {
+                            out.push(k.ty(t, sc));
+                        }
+                    }
+                    syn::PathArguments::AngleBracketed(ab) => {
+                        for a in &ab.args {
+                            if let syn::GenericArgument::AssocType(at) = a {
+                                out.push(k.ty(&at.ty, sc));
+                            }
+                        }
+                    }
+                    _ => {}
+                }
+            }
+        }
+    }
+}
+
+fn ty_mentions_param(t: &Ty) -> bool {
+    match t {
+        Ty::Param(_) => true,
+        Ty::Prim(_) | Ty::Unclassified(_) => false,
+        Ty::Ref(_, t) | Ty::RefMut(_, t) | Ty::RawConst(t) | Ty::RawMut(t) | Ty::Slice(t) => ty_mentions_param(t),
+        Ty::Std(_, ts) | Ty::Tuple(ts) => ts.iter().any(ty_mentions_param),
+        Ty::Proj { self_, tys, .. } => ty_mentions_param(self_) || tys.iter().any(ty_mentions_param),
+        Ty::FnPtr { args, ret, .. } => args.iter().any(ty_mentions_param) || ty_mentions_param(ret),
+        Ty::Adt { tys, .. } => tys.iter().any(ty_mentions_param),
+    }
+}
+
+fn record_method(k: &Krate, fi: usize, impl_sc: &Scope, self_ty: &Ty, im: &syn::ItemImpl, m: &syn::ImplItemFn, tbl: &mut Table) {
+    let Ty::Adt { name, tys, .. } = self_ty else { return };
+    let Some(raw) = k.adts.get(name) else { return };
+    if raw.vis != "pub" || m.sig.unsafety.is_some() {
+        return;
+    }
+    // callable by safe client code: a `pub` inherent method, or any method of a trait impl
+    if im.trait_.is_none() && !matches!(m.vis, syn::Visibility::Public(_)) {
+        return;
+    }
+    let sc = k.scope_for(fi, Some(impl_sc), &m.sig.generics);
+    let mut params: Vec<Ty> = Vec::new();
+    for inp in &m.sig.inputs {
+        if let syn::FnArg::Typed(pt) = inp {
+            match &*pt.ty {
+                syn::Type::ImplTrait(it) => supplied_by_bounds(it.bounds.iter(), k, &sc, &mut params),
+                t => params.push(k.ty(t, &sc)),
+            }
+        }
+    }
+    for p in &m.sig.generics.params {
+        if let syn::GenericParam::Type(t) = p {
+            supplied_by_bounds(t.bounds.iter(), k, &sc, &mut params);
+        }
+    }
+    if let Some(w) = &m.sig.generics.where_clause {
+        for pr in &w.predicates {
+            if let syn::WherePredicate::Type(pt) = pr {
+                supplied_by_bounds(pt.bounds.iter(), k, &sc, &mut params);
+            }
+        }
+    }
+    // only methods through which a value of a parameter type can be handed in are of interest
+    let params: Vec<Ty> = params.into_iter().filter(ty_mentions_param).collect();
+    if params.is_empty() {
+        return;
+    }
+    let mut bounded: Vec<String> = Vec::new();
+    for p in &sc.tys {
+        let b = sc.static_params.contains(p) || sc.bounds.iter().any(|(w, tr)| w == p && tr.name == "Collect");
+        if b && !bounded.contains(p) {
+            bounded.push(p.clone());
+        }
+    }
+    tbl.methods.push(MethodRec {
+        adt: name.clone(),
+        file: k.files[fi].name.clone(),
+        method: m.sig.ident.to_string(),
+        trait_: im.trait_.as_ref().map(|(_, p, _)| p.segments.last().unwrap().ident.to_string()).unwrap_or_default(),
+        self_args: tys.clone(),
+        params,
+        bounded,
+    });
+}
+
 fn macro_tokens_flag(tokens: &proc_macro2::TokenStream) -> Vec<&'static str> {
     // identifiers that matter for C12 and cannot be analysed inside an unexpanded macro
     fn walk(ts: proc_macro2::TokenStream, prev_impl: &mut bool, found: &mut Vec<&'static str>) {
@@ -1318,6 +1429,7 @@ fn facts_items(k: &Krate, fi: usize, items: &[syn::Item], tbl: &mut Table) {
                 for ii in &im.items {
                     if let syn::ImplItem::Fn(m) = ii {
                         if let Cfg::Skip = cfg_of(&m.attrs) { continue; }
+                        record_method(k, fi, &sc, &self_ty, im, m, tbl);
                         do_fn(k, fi, &sc, &self_name, &m.vis, &m.sig, Some(&m.block), im.trait_.is_none(), tbl);
                     }
                 }
